@@ -4,6 +4,7 @@ Everything generated is JSON-serialisable through engine.to_jsonable, so a
 case is its own replay file.  All random choices are Hypothesis draws.
 """
 
+import copy
 import functools
 
 from hypothesis import strategies as st
@@ -428,8 +429,11 @@ def _fresh(v):
 
 def call_writer(writer, op, kw):
     """Apply one program call to a DiffXWriter."""
+    # the writer gets its own copies: what the program says was passed
+    # stays what was passed, whatever the writer does to its arguments
     kw = {k: (_fresh(v) if k in ('encoding', 'line_endings', 'mimetype',
-                                 'diff_type', 'meta_format') else v)
+                                 'diff_type', 'meta_format')
+              else copy.deepcopy(v))
           for k, v in kw.items()}
 
     # every third call goes through the documented positional order
